@@ -209,7 +209,22 @@ def r1(proj, rep):
         elif _shape(out) == 'F+I' and g_first and c_second:
             rep.violation('R1', q, 'op_grad legs are (fresh, chosen): the gradient of op^T is returned (wrong for every non-symmetric parametrised gate)', m, c)
         else:
-            rep.undecided('R1', q, f'op_grad contraction not in the recognised form (output {_shape(out)})', m, c)
+            # fresh legs collected by scanning the relabelled list: they come out in QUBIT-POSITION order, not in the order of `index`
+            parts = out[1] if out[0] == 'CAT' else [out]
+            scan = None
+            if len(parts) == 2 and parts[0][0] == 'I' and isinstance(c.args[4], (ast.BinOp, ast.Name)):
+                e4 = c.args[4]
+                if isinstance(e4, ast.Name):
+                    e4, _ = _def(fi.node, e4.id, c)
+                if isinstance(e4, ast.BinOp) and isinstance(e4.right, ast.ListComp) and e4.right.generators[0].ifs \
+                        and ast.unparse(e4.right.generators[0].iter) == ast.unparse(c.args[3]):
+                    scan = e4.right
+            if scan is not None and g_first and c_second:
+                rep.violation('R1', q, f'the fresh (column) legs of op_grad are `{ast.unparse(scan)}`: they are listed in qubit-position order, not in the order of '
+                              f'`index`, so for a gate on non-ascending qubits (e.g. (2,0)) the input axes of the operator gradient are permuted', m, c)
+            else:
+                rep.undecided('R1', q, f'op_grad contraction not in the recognised form (output {_shape(out)})', m, c)
+                n -= 1
     # expectation
     q = 'numqi.sim.dm.operator_expectation'
     fi = proj.func(q)
